@@ -325,6 +325,7 @@ fn code_with(i: usize, bits: u32) -> SCode {
 		visible_type: if b(5) { vec![tann_i(STarget::Catch(i as u16), i), tann_i(STarget::Offset { target_type: 0x44, at: 1 }, i)] } else { vec![] },
 		invisible_type: if b(6) { vec![tann_i(STarget::LocalVar { target_type: 0x40, table: vec![(0, 3, i as u16)] }, i + 10)] } else { vec![] },
 		unknown: if b(7) { vec![unk("C", i)] } else { vec![] },
+		..Default::default()
 	}
 }
 const CODE_MENU: u32 = 8;
